@@ -32,8 +32,11 @@ type Program struct {
 	tags      map[string]int
 	tagTypes  []types.Type
 	srcLines  map[string][]string
+	pkgInvs   map[string][]*Clause
+	roots     map[string]bool
 	immCache  []immField
 	immErrors []string
+	immAssumed []string
 }
 
 // findContractFiles: every zz_verif_contracts.go under /repo, with its package import path
@@ -117,6 +120,12 @@ func (p *Program) addFile(cf *ContractFile) {
 		p.tcontracts[t.PkgPath+"::"+t.Name] = t
 	}
 	p.lemmas = append(p.lemmas, cf.Lemmas...)
+	if len(cf.PkgInvs) > 0 {
+		if p.pkgInvs == nil {
+			p.pkgInvs = map[string][]*Clause{}
+		}
+		p.pkgInvs[cf.PkgPath] = append(p.pkgInvs[cf.PkgPath], cf.PkgInvs...)
+	}
 }
 
 func (p *Program) contract(pkgPath, key string) *FuncContract {
@@ -179,8 +188,10 @@ func (p *Program) load(pkgPaths []string) error {
 	prog, spkgs := ssautil.AllPackages(pkgs, ssa.GlobalDebug)
 	p.ssaProg = prog
 	p.ssaPkgs = map[string]*ssa.Package{}
+	p.roots = map[string]bool{}
 	for i, sp := range spkgs {
 		if sp != nil {
+			p.roots[pkgs[i].PkgPath] = true
 			sp.Build()
 			p.ssaPkgs[pkgs[i].PkgPath] = sp
 		}
